@@ -1,1 +1,2 @@
 //! reference models
+pub mod state;
